@@ -8,6 +8,7 @@ import (
 	"fmt"
 	"math"
 	"strings"
+	"time"
 
 	"github.com/wolimst/lib-secs2-hsms-go/pkg/ast"
 	"github.com/wolimst/lib-secs2-hsms-go/pkg/parser/hsms"
@@ -16,6 +17,7 @@ import (
 
 type panicked struct{ msg string }
 type failed struct{}
+type hung struct{}
 type skipped struct{}
 type smlRes struct {
 	msgs        []*ast.DataMessage
@@ -311,8 +313,30 @@ func (e *Exec) evalStep(s Step) (res interface{}) {
 		b, ok := ast.VerifHeaderBytes(string(s.S), int(s.N))
 		return headerRes{b, ok}
 	case "SP":
-		ms, errs, warns := sml.Parse(string(s.S))
-		return smlRes{ms, errs, warns}
+		// a watchdog: a parse that never returns is an observation ("G"), not a dead harness
+		type out struct {
+			r   smlRes
+			pan interface{}
+		}
+		ch := make(chan out, 1)
+		go func() {
+			defer func() {
+				if r := recover(); r != nil {
+					ch <- out{pan: r}
+				}
+			}()
+			ms, errs, warns := sml.Parse(string(s.S))
+			ch <- out{r: smlRes{ms, errs, warns}}
+		}()
+		select {
+		case o := <-ch:
+			if o.pan != nil {
+				panic(o.pan)
+			}
+			return o.r
+		case <-time.After(20 * time.Second):
+			return hung{}
+		}
 	case "SX":
 		return lexRes{string(s.S), sml.VerifLex(string(s.S))}
 	case "PK":
@@ -347,6 +371,8 @@ func (e *Exec) observe(x interface{}) string {
 		return "P"
 	case failed:
 		return "N"
+	case hung:
+		return "G"
 	case skipped:
 		return "X"
 	case smlRes:
